@@ -228,6 +228,27 @@ theorem creation_flag_owner_only {s s' : St} {op : Op} {o : Out} (h : step s op 
   | advance e =>
     obtain ⟨_, rfl⟩ := advance_spec h
     exact absurd rfl hne
+  | setTmpPeriod c n =>
+    obtain ⟨_, _, rfl⟩ := setTmpPeriod_spec h
+    exact absurd rfl hne
+  | clearTmp c =>
+    obtain ⟨_, _, rfl⟩ := clearTmp_spec h
+    exact absurd rfl hne
+  | issueLp c x =>
+    obtain ⟨_, _, _, _, _, _, rfl⟩ := issueLp_spec h
+    exact absurd rfl hne
+  | setLocalRoles c x =>
+    obtain ⟨_, _, _, _, rfl⟩ := setLocalRoles_spec (c := c) h
+    exact absurd rfl hne
+  | upgradePair c t1 t2 =>
+    obtain ⟨_, _, _, _, _, _, _, rfl⟩ := upgradePair_spec h
+    exact absurd rfl hne
+  | advanceBlock n =>
+    obtain ⟨_, _, rfl⟩ := advanceBlock_spec h
+    exact absurd rfl hne
+  | bareNext b =>
+    obtain ⟨_, rfl⟩ := setBareNext_spec h
+    exact absurd rfl hne
 
 /-! ### only registered pairs can be paused, resumed, configured or used as hops -/
 
@@ -627,6 +648,27 @@ theorem enable_config_owner_only {s s' : St} {op : Op} {o : Out} (h : step s op 
     exact (same rfl rfl).elim
   | advance e =>
     obtain ⟨_, rfl⟩ := advance_spec h
+    exact (same rfl rfl).elim
+  | setTmpPeriod c n =>
+    obtain ⟨_, _, rfl⟩ := setTmpPeriod_spec h
+    exact (same rfl rfl).elim
+  | clearTmp c =>
+    obtain ⟨_, _, rfl⟩ := clearTmp_spec h
+    exact (same rfl rfl).elim
+  | issueLp c x =>
+    obtain ⟨_, _, _, _, _, _, rfl⟩ := issueLp_spec h
+    exact (same rfl rfl).elim
+  | setLocalRoles c x =>
+    obtain ⟨_, _, _, _, rfl⟩ := setLocalRoles_spec (c := c) h
+    exact (same rfl rfl).elim
+  | upgradePair c t1 t2 =>
+    obtain ⟨_, _, _, _, _, _, _, rfl⟩ := upgradePair_spec h
+    exact (same rfl rfl).elim
+  | advanceBlock n =>
+    obtain ⟨_, _, rfl⟩ := advanceBlock_spec h
+    exact (same rfl rfl).elim
+  | bareNext b =>
+    obtain ⟨_, rfl⟩ := setBareNext_spec h
     exact (same rfl rfl).elim
 
 /-- … and the configuration endpoints themselves: owner only, valid ids, and a per-token config
